@@ -1,7 +1,7 @@
 (* C07 - Printing an evaluated value as CUE and evaluating it again gives the same value.
    Value-level printing of CoreCUE normal forms, the option profiles, the predeclared-range
    rewriting of bounds.go.  Only statements, closed by [exact], and Print Assumptions. *)
-From Verif Require Import Core.Syntax Core.Eval Print.Model Print.ScalProofs Print.Proofs Print.ProjProofs Print.Examples Print.Impl Print.ImplProofs.
+From Verif Require Import Core.Syntax Core.Eval Print.Model Print.ScalProofs Print.Proofs Print.ProjProofs Print.Examples Print.Impl Print.ImplProofs Core.Disj Print.DisjModel Print.DisjProofs.
 From Coq Require Import List ZArith NArith.
 Import ListNotations.
 
@@ -97,6 +97,57 @@ Example C07_w_close_observable :
   (match evalNode w_labs w_atoms 10 (impl_def w_close) with RStruct fs o => nth 1 o true = false | _ => False end).
 Proof. exact w_close_observable. Qed.
 Print Assumptions C07_w_close_observable.
+
+(* ---- disjunctions with defaults (Print/DisjModel.v: exporter.value, case *adt.Disjunction,
+   adt.Default under TakeDefaults) over the order-free semantics of Core/Disj.v ------------------- *)
+(* eval (print v) = v for an evaluated disjunction with default marks *)
+Theorem C07_eval_print_sdisj :
+  forall labs atoms f d, sd_wf d = true ->
+    pair_of labs atoms (S f) [] [print_sdisj d] = sd_denote atoms d.
+Proof. exact eval_print_sdisj. Qed.
+Print Assumptions C07_eval_print_sdisj.
+
+(* the round trip: evaluate a conjunction of scalars and disjunctions, print the evaluated
+   disjunction with its marks, evaluate the text: the same value/default pair *)
+Theorem C07_print_marked_roundtrip :
+  forall labs atoms f plain ds,
+    forallb pure_scalar plain = true -> forallb pure_disj ds = true ->
+    pair_of labs atoms (S f) [] [print_marked labs atoms (S f) plain ds] = pair_of labs atoms (S f) plain ds.
+Proof. exact print_marked_roundtrip. Qed.
+Print Assumptions C07_print_marked_roundtrip.
+
+(* value-mode profiles (TakeDefaults): the printed text resolves to what the original resolves to *)
+Theorem C07_print_final_resolve :
+  forall labs atoms f plain ds,
+    forallb pure_scalar plain = true -> forallb pure_disj ds = true ->
+    resolve (pair_of labs atoms (S f) [] [print_final labs atoms (S f) plain ds]) =
+    resolve (pair_of labs atoms (S f) plain ds).
+Proof. exact print_final_resolve. Qed.
+Print Assumptions C07_print_final_resolve.
+
+(* ... and its values are exactly the defaults of the original (all values when there is none) *)
+Theorem C07_print_final_values :
+  forall labs atoms f plain ds,
+    forallb pure_scalar plain = true -> forallb pure_disj ds = true ->
+    let p := pair_of labs atoms (S f) plain ds in
+    values (pair_of labs atoms (S f) [] [print_final labs atoms (S f) plain ds]) =
+    match defaults p with [] => values p | dv => dv end.
+Proof. exact print_final_values. Qed.
+Print Assumptions C07_print_final_values.
+
+(* adt.Default alone: no marks left, the values are the former defaults, same resolution *)
+Theorem C07_take_defaults_resolve :
+  forall atoms d, resolve (sd_denote atoms (take_defaults d)) = resolve (sd_denote atoms d).
+Proof. exact take_defaults_resolve. Qed.
+Print Assumptions C07_take_defaults_resolve.
+
+Example C07_ex_disj_normal_form :
+  map fst (normalize_sdisj [] dx_atoms 5 dx_plain dx_ds) = [true; false; true; false] /\
+  map fst (print_final [] dx_atoms 5 dx_plain dx_ds) = [false; false] /\
+  length (values (pair_of [] dx_atoms 5 [] [print_final [] dx_atoms 5 dx_plain dx_ds])) = 2%nat /\
+  resolve (pair_of [] dx_atoms 5 dx_plain dx_ds) = Ambiguous.
+Proof. exact dx_normal_form. Qed.
+Print Assumptions C07_ex_disj_normal_form.
 
 (* non-vacuity *)
 Example C07_ex_roundtrip :
